@@ -7,6 +7,7 @@
 import Rl.Completion
 import Rl.Spec.Completion
 import Rl.Lemmas.Completion
+import Rl.Lemmas.CompletionReplacement
 open Rl Rl.Completion
 
 /-- Escaping then unescaping is the identity, for every text, every break set that contains the
@@ -447,3 +448,220 @@ theorem C15_word_agrees_counterexample : ¬ C15_word_agrees_statement := by
   have h1 := h "'\\'a".toList (3, "a".toList) (by decide)
   revert h1
   decide
+
+/-! ### round 17: what a candidate is, and the round trip of the replacement the completer itself
+    builds (no hypothesis on the shape of the replacement any more) -/
+
+/-- Soundness of the offer, on the model of `filename_complete`: every candidate `(d, r)` offered
+    for `path` comes from an entry of the listing that lives in the addressed directory
+    (`dirKey path` = the normalised directory part of `path`) and whose name `d` starts with the
+    typed file-name part; and the replacement `r` is the escape, in the context's rules, of the
+    WHOLE path: the directory part exactly as typed, then the name, then the separator when the
+    entry is a directory.  (An escape of the name alone, leaving the directory part raw, would
+    contradict this.)  Every path, listing, escape character, break set, context. -/
+theorem C15_candidate_is_escaped_whole_path (fs : Listing) (path : Text) (esc : Option Char)
+    (brk : Char → Bool) (q : Quote) (ms : List (Text × Text))
+    (h : filenameComplete fs path esc brk q = some ms) (d r : Text) (hm : (d, r) ∈ ms) :
+    ∃ e ∈ fs, e.name = d ∧ (splitPath path).2 <+: d ∧ e.dir = dirKey path ∧
+      r = escape esc brk q ((splitPath path).1 ++ d ++ (if e.isDir then ['/'] else [])) :=
+  filenameComplete_mem fs path esc brk q ms h d r hm
+
+/-- Completeness of the offer: when the addressed directory is the current one or is present in
+    the listing as a directory, EVERY entry of it whose name starts with the typed file-name part
+    is offered - display = its name, replacement = escaped (directory part ++ name ++ separator
+    for a directory).  With the previous theorem: exactly the matches are offered. -/
+theorem C15_every_match_offered (fs : Listing) (path : Text) (esc : Option Char)
+    (brk : Char → Bool) (q : Quote) (ms : List (Text × Text))
+    (h : filenameComplete fs path esc brk q = some ms)
+    (hex : (dirKey path).isEmpty = true ∨ ∃ e ∈ fs, e.isDir = true ∧ e.full = dirKey path)
+    (e : Entry) (he : e ∈ fs) (hdir : e.dir = dirKey path) (hp : (splitPath path).2 <+: e.name) :
+    (e.name, escape esc brk q ((splitPath path).1 ++ e.name ++ (if e.isDir then ['/'] else []))) ∈ ms :=
+  filenameComplete_complete fs path esc brk q ms h hex e he hdir hp
+
+/-- non-vacuity: the sub-directory `x y` of the listing is addressed by the typed `x y/z` -/
+example : dirKey "x y/z".toList = "x y".toList ∧ (splitPath "x y/z".toList) = ("x y/".toList, "z".toList) := by
+  decide
+
+/-- Bare context, read-back of the completer's own replacement.  For EVERY candidate `(d, r)`
+    offered for `path` (file or directory, directory part and name with any blanks, quotes,
+    backslashes, multi-byte characters), after a bare prefix `pre` the parse step of
+    `complete_path` at the end of `pre ++ r` reports the start `|pre|`, the bare context and the
+    path `directory part ++ d` (followed by the separator for a directory candidate): the
+    inserted text names exactly the file that was offered. -/
+theorem C15_replacement_reads_back_bare (B D : Char → Bool) (h1 : B '"' = true) (h2 : B '\\' = true)
+    (h3 : B '\'' = true) (fs : Listing) (pre path : Text) (hu : C15_bare_prefix B pre = true)
+    (ms : List (Text × Text)) (h : filenameComplete fs path (some '\\') B .none = some ms)
+    (d r : Text) (hm : (d, r) ∈ ms) :
+    ∃ sep, (sep = [] ∨ sep = ['/']) ∧
+      parsePath B D (pre ++ r) (blen (pre ++ r))
+        = some (blen pre, (splitPath path).1 ++ d ++ sep, some '\\', B, Quote.none) := by
+  obtain ⟨e, _, _, _, _, hr⟩ := filenameComplete_mem fs path _ B .none ms h d r hm
+  subst hr
+  refine ⟨if e.isDir then ['/'] else [], ?_, C15_reparse_bare B D h1 h2 h3 pre _ hu⟩
+  cases e.isDir <;> simp
+
+/-- Double-quote context, same statement (line = `pre`, the opening quote, the replacement). -/
+theorem C15_replacement_reads_back_double (B D : Char → Bool) (h1 : D '"' = true) (h2 : D '\\' = true)
+    (fs : Listing) (pre path : Text) (hc : C15_closed pre = true)
+    (ms : List (Text × Text)) (h : filenameComplete fs path (some '\\') D .double = some ms)
+    (d r : Text) (hm : (d, r) ∈ ms) :
+    ∃ sep, (sep = [] ∨ sep = ['/']) ∧
+      parsePath B D (pre ++ ['"'] ++ r) (blen (pre ++ ['"'] ++ r))
+        = some (blen pre + 1, (splitPath path).1 ++ d ++ sep, some '\\', D, Quote.double) := by
+  obtain ⟨e, _, _, _, _, hr⟩ := filenameComplete_mem fs path _ D .double ms h d r hm
+  subst hr
+  refine ⟨if e.isDir then ['/'] else [], ?_, C15_reparse_double B D h1 h2 pre _ hc⟩
+  cases e.isDir <;> simp
+
+/-- Single-quote context, for replacements without a single quote (no escape exists there): the
+    replacement is the raw path and is read back as such. -/
+theorem C15_replacement_reads_back_single (B D : Char → Bool)
+    (fs : Listing) (pre path : Text) (hc : C15_closed pre = true)
+    (ms : List (Text × Text)) (h : filenameComplete fs path none B .single = some ms)
+    (d r : Text) (hm : (d, r) ∈ ms) (hq : '\'' ∉ r) :
+    ∃ sep, (sep = [] ∨ sep = ['/']) ∧ r = (splitPath path).1 ++ d ++ sep ∧
+      parsePath B D (pre ++ ['\''] ++ r) (blen (pre ++ ['\''] ++ r))
+        = some (blen pre + 1, r, none, B, Quote.single) := by
+  obtain ⟨e, _, _, _, _, hr⟩ := filenameComplete_mem fs path _ B .single ms h d r hm
+  refine ⟨if e.isDir then ['/'] else [], ?_, ?_, C15_reparse_single B D pre r hq hc⟩
+  · cases e.isDir <;> simp
+  · rw [hr]; simp [escape]
+
+/-- Bare context, end to end, WITHOUT the hypothesis of `C15_offered_again_bare` on the shape of
+    the replacement.  For every candidate `(d, r)` the completer offers for `path` (names never
+    contain the separator; the separator is not a break character): `r` is `r0` for a file and
+    `r0 ++ "/"` for a directory, where `r0` is the escaped (directory part ++ name); and completing
+    at the end of `pre ++ r0` starts at the same place and offers `d` again with the same `r`. -/
+theorem C15_offered_again_bare_any (B D : Char → Bool) (h1 : B '"' = true) (h2 : B '\\' = true)
+    (h3 : B '\'' = true) (hsep : B '/' = false) (fs : Listing) (pre path : Text)
+    (hu : C15_bare_prefix B pre = true)
+    (ms : List (Text × Text)) (h : filenameComplete fs path (some '\\') B .none = some ms)
+    (d r : Text) (hm : (d, r) ∈ ms) (hd : '/' ∉ d) :
+    (r = escape (some '\\') B .none ((splitPath path).1 ++ d)
+        ∨ r = escape (some '\\') B .none ((splitPath path).1 ++ d) ++ ['/']) ∧
+      ∃ cs, completePath B D fs (pre ++ escape (some '\\') B .none ((splitPath path).1 ++ d))
+              (blen (pre ++ escape (some '\\') B .none ((splitPath path).1 ++ d))) = .ok (blen pre, cs)
+        ∧ (d, r) ∈ cs := by
+  refine ⟨?_, C15_offered_again B D fs path _ B .none ms h d r hm hd _ _
+    (C15_reparse_bare B D h1 h2 h3 pre _ hu)⟩
+  obtain ⟨e, _, _, _, _, hr⟩ := filenameComplete_mem fs path _ B .none ms h d r hm
+  subst hr
+  cases e.isDir
+  · left; simp
+  · right; simp only [if_true]; exact escape_append_sep _ B _ hsep _
+
+/-- Double-quote context, end to end, same statement. -/
+theorem C15_offered_again_double_any (B D : Char → Bool) (h1 : D '"' = true) (h2 : D '\\' = true)
+    (hsep : D '/' = false) (fs : Listing) (pre path : Text) (hc : C15_closed pre = true)
+    (ms : List (Text × Text)) (h : filenameComplete fs path (some '\\') D .double = some ms)
+    (d r : Text) (hm : (d, r) ∈ ms) (hd : '/' ∉ d) :
+    (r = escape (some '\\') D .double ((splitPath path).1 ++ d)
+        ∨ r = escape (some '\\') D .double ((splitPath path).1 ++ d) ++ ['/']) ∧
+      ∃ cs, completePath B D fs (pre ++ ['"'] ++ escape (some '\\') D .double ((splitPath path).1 ++ d))
+              (blen (pre ++ ['"'] ++ escape (some '\\') D .double ((splitPath path).1 ++ d)))
+            = .ok (blen pre + 1, cs)
+        ∧ (d, r) ∈ cs := by
+  refine ⟨?_, C15_offered_again B D fs path _ D .double ms h d r hm hd _ _
+    (C15_reparse_double B D h1 h2 pre _ hc)⟩
+  obtain ⟨e, _, _, _, _, hr⟩ := filenameComplete_mem fs path _ D .double ms h d r hm
+  subst hr
+  cases e.isDir
+  · left; simp
+  · right; simp only [if_true]; exact escape_append_sep _ D _ hsep _
+
+/-- Single-quote context, end to end, same statement (directory part and name without `'`). -/
+theorem C15_offered_again_single_any (B D : Char → Bool) (fs : Listing) (pre path : Text)
+    (hc : C15_closed pre = true)
+    (ms : List (Text × Text)) (h : filenameComplete fs path none B .single = some ms)
+    (d r : Text) (hm : (d, r) ∈ ms) (hd : '/' ∉ d) (hq : '\'' ∉ (splitPath path).1 ++ d) :
+    (r = (splitPath path).1 ++ d ∨ r = (splitPath path).1 ++ d ++ ['/']) ∧
+      ∃ cs, completePath B D fs (pre ++ ['\''] ++ ((splitPath path).1 ++ d))
+              (blen (pre ++ ['\''] ++ ((splitPath path).1 ++ d))) = .ok (blen pre + 1, cs)
+        ∧ (d, r) ∈ cs := by
+  refine ⟨?_, C15_offered_again B D fs path _ B .single ms h d r hm hd _ _
+    (C15_reparse_single B D pre _ hq hc)⟩
+  obtain ⟨e, _, _, _, _, hr⟩ := filenameComplete_mem fs path _ B .single ms h d r hm
+  subst hr
+  cases e.isDir
+  · left; simp [escape]
+  · right; simp [escape]
+
+/-- non-vacuity of the hypotheses of the `_any` theorems on the unix parameter sets, and a
+    candidate whose DIRECTORY part needs escaping: typed `x\ y/z` (path `x y/z`) in the directory
+    `x y` containing `z w`: the replacement escapes the blank of the directory part too -/
+example : defaultBreak '/' = false ∧ dqSpecial '/' = false := by decide
+example :
+    filenameComplete [⟨[], "x y".toList, true⟩, ⟨"x y".toList, "z w".toList, false⟩]
+      "x y/z".toList (some '\\') defaultBreak .none
+    = some [("z w".toList, "x\\ y/z\\ w".toList)] := by decide
+example : (parsePath defaultBreak dqSpecial "ls x\\ y/z\\ w".toList 12).map (fun r => (r.1, r.2.1, r.2.2.2.2))
+      = some (3, "x y/z w".toList, Quote.none) := by decide
+
+/-! ### a directory candidate: completing again from its replacement descends into it -/
+
+/-- For a directory candidate (entry `e` of the addressed directory, a real name: not empty, no
+    separator, not `.`, `..`, `~`): `filename_complete` on (directory part as typed ++ name ++
+    separator) - the path its replacement reads back to - offers exactly the entries of that
+    directory (those whose `dir` is the full path of `e`), each with a replacement that extends the
+    typed path.  Every listing, escape character, break set, context. -/
+theorem C15_directory_candidate_descends (fs : Listing) (path : Text) (esc : Option Char)
+    (brk : Char → Bool) (q : Quote) (ms : List (Text × Text))
+    (h : filenameComplete fs path esc brk q = some ms)
+    (e : Entry) (he : e ∈ fs) (hdir : e.dir = dirKey path) (hisd : e.isDir = true)
+    (hne : e.name ≠ []) (hd : '/' ∉ e.name)
+    (hdot : e.name ≠ ['.'] ∧ e.name ≠ ['.', '.'] ∧ e.name ≠ ['~']) :
+    filenameComplete fs ((splitPath path).1 ++ e.name ++ ['/']) esc brk q =
+      some ((fs.filter (fun e' => e'.dir == e.full)).map (fun e' =>
+        (e'.name, escape esc brk q ((splitPath path).1 ++ e.name ++ ['/'] ++ e'.name
+            ++ (if e'.isDir then ['/'] else []))))) :=
+  filenameComplete_into_dir fs path esc brk q ms h e he hdir hisd hne hd hdot
+
+/-- Bare context, end to end at the level of `complete_path`: after a bare prefix `pre`, with the
+    replacement `r` of such a directory candidate inserted (`r` = escaped directory part ++ name ++
+    separator, as `C15_candidate_is_escaped_whole_path` says the completer builds it), completing
+    at the end of `pre ++ r` starts at `|pre|` and offers exactly the content of that directory,
+    sorted by name. -/
+theorem C15_directory_replacement_descends_bare (B D : Char → Bool) (h1 : B '"' = true)
+    (h2 : B '\\' = true) (h3 : B '\'' = true) (fs : Listing) (pre path : Text)
+    (hu : C15_bare_prefix B pre = true) (ms : List (Text × Text))
+    (h : filenameComplete fs path (some '\\') B .none = some ms)
+    (e : Entry) (he : e ∈ fs) (hdir : e.dir = dirKey path) (hisd : e.isDir = true)
+    (hne : e.name ≠ []) (hd : '/' ∉ e.name)
+    (hdot : e.name ≠ ['.'] ∧ e.name ≠ ['.', '.'] ∧ e.name ≠ ['~'])
+    (r : Text) (hr : r = escape (some '\\') B .none ((splitPath path).1 ++ e.name ++ ['/'])) :
+    completePath B D fs (pre ++ r) (blen (pre ++ r)) =
+      .ok (blen pre, ((fs.filter (fun e' => e'.dir == e.full)).map (fun e' =>
+        (e'.name, escape (some '\\') B .none ((splitPath path).1 ++ e.name ++ ['/'] ++ e'.name
+            ++ (if e'.isDir then ['/'] else []))))).mergeSort (fun a b => textLe a.1 b.1)) := by
+  subst hr
+  unfold completePath
+  rw [C15_reparse_bare B D h1 h2 h3 pre _ hu]
+  simp only [filenameComplete_into_dir fs path _ B .none ms h e he hdir hisd hne hd hdot]
+
+/-- Double-quote context, same statement (line = `pre`, the opening quote, the replacement). -/
+theorem C15_directory_replacement_descends_double (B D : Char → Bool) (h1 : D '"' = true)
+    (h2 : D '\\' = true) (fs : Listing) (pre path : Text)
+    (hc : C15_closed pre = true) (ms : List (Text × Text))
+    (h : filenameComplete fs path (some '\\') D .double = some ms)
+    (e : Entry) (he : e ∈ fs) (hdir : e.dir = dirKey path) (hisd : e.isDir = true)
+    (hne : e.name ≠ []) (hd : '/' ∉ e.name)
+    (hdot : e.name ≠ ['.'] ∧ e.name ≠ ['.', '.'] ∧ e.name ≠ ['~'])
+    (r : Text) (hr : r = escape (some '\\') D .double ((splitPath path).1 ++ e.name ++ ['/'])) :
+    completePath B D fs (pre ++ ['"'] ++ r) (blen (pre ++ ['"'] ++ r)) =
+      .ok (blen pre + 1, ((fs.filter (fun e' => e'.dir == e.full)).map (fun e' =>
+        (e'.name, escape (some '\\') D .double ((splitPath path).1 ++ e.name ++ ['/'] ++ e'.name
+            ++ (if e'.isDir then ['/'] else []))))).mergeSort (fun a b => textLe a.1 b.1)) := by
+  subst hr
+  unfold completePath
+  rw [C15_reparse_double B D h1 h2 pre _ hc]
+  simp only [filenameComplete_into_dir fs path _ D .double ms h e he hdir hisd hne hd hdot]
+
+/-- non-vacuity: typed `x`, the directory `x y` is offered with the replacement `x\ y/`; completing
+    at the end of `ls x\ y/` lists its content, the replacement extending the typed text -/
+example : (parsePath defaultBreak dqSpecial "ls x\\ y/".toList 8).map (fun r => (r.1, r.2.1, r.2.2.2.2))
+      = some (3, "x y/".toList, Quote.none) := by decide
+example :
+    filenameComplete
+      [⟨[], "x y".toList, true⟩, ⟨"x y".toList, "z w".toList, false⟩, ⟨[], "q".toList, false⟩]
+      "x y/".toList (some '\\') defaultBreak .none
+    = some [("z w".toList, "x\\ y/z\\ w".toList)] := by decide
